@@ -95,6 +95,17 @@ SCOPES = {
     '54': ("src/smbus_request.rs", OWN),
     '55': ("src/smbus_response.rs", OWN),
     '56': ("the receive half of src/smbus.rs (`get_length`, `decode_packet` and their private helpers; leave `process_packet` alone)", OWN),
+    # round 8
+    '61': ("the packet assembly (src/mctp_traits.rs, src/smbus_proto.rs, src/base_packet.rs)",
+           "a private typestate builder (`struct Packet<'a, S> { buf: &'a mut [u8], pos: usize, _s: PhantomData<S> }` with states for "
+           "'headers written' / 'body written'), methods consuming `self`, struct destructuring with `..`, a private struct implementing "
+           "`Iterator<Item = &[u8]>` over the sections that is consumed with a `for` loop"),
+    '62': ("the encoders in src/smbus_request.rs and src/smbus_response.rs",
+           "a shrinking cursor (`let (head, rest) = core::mem::take(&mut cursor).split_at_mut(n); cursor = rest;`) for filling the data "
+           "array, multi-byte fields assembled in a `u16`/`u32` word and emitted with `to_be_bytes`, `Option` combinators (`or`, `xor`, `and`, "
+           "`or_else`, `unwrap_or_default`, `map_or_else`, `take`, `transpose`) where they fit, `core::convert::identity`"),
+    '63': ("`process_packet`, the vendor ID selector handling and the identity answers in src/smbus.rs", OWN),
+    '64': ("src/base_packet.rs, src/control_packet.rs and src/smbus_proto.rs (header views, validators, constructors)", OWN),
 }
 
 
